@@ -95,7 +95,7 @@ impl ExtensionsMap {
                     result.private = PrivateExtensionList::try_from_iter(iter)?;
                 }
                 None => {}
-                _ => unimplemented!(),
+                _ => return Err(ParserError::InvalidExtension),
             }
 
             st = iter.next();
